@@ -1385,7 +1385,7 @@ NC_array *
 hdf_read_attrs(XDR *xdrs, NC *handle, int32 vg)
 {
     int     count, t, n;
-    int32   vs, tag, id, vsize, attr_size, nt;
+    int32   vs, tag, id, vsize, attr_size, nt, order;
     nc_type type;
     char    vsname[H4_MAX_NC_NAME] = "";
     char    fields[100]            = "";
@@ -1450,12 +1450,15 @@ hdf_read_attrs(XDR *xdrs, NC *handle, int32 vg)
                 if (VSread(vs, (uint8 *)values, attr_size, FULL_INTERLACE) == FAIL)
                     HGOTO_FAIL(NULL);
 
-                if (type == NC_CHAR) {
-                    if ((attr_size = VFfieldorder(vs, 0)) == FAIL)
-                        HGOTO_FAIL(NULL);
+                /* the number of values is records x order: DFNT_CHAR values are
+                   written as one record of that order, every other type (DFNT_UCHAR
+                   included) as one value per record */
+                if ((order = VFfieldorder(vs, 0)) == FAIL)
+                    HGOTO_FAIL(NULL);
+                attr_size *= order;
 
+                if (type == NC_CHAR)
                     ((char *)values)[attr_size] = '\0';
-                }
 
                 attributes[count] = (NC_attr *)NC_new_attr(vsname, type, attr_size, values);
                 if (NULL == attributes[count]) {
